@@ -233,6 +233,76 @@ def gen_sp_cases(rng, n, sizes, big=()):
     return cases
 
 
+def gen_uneven(rng, N, K):
+    """k-NN graph of points with strongly uneven density (coordinates u^4 on a 2^12 lattice), Euclidean distances
+    rounded to integers, neighbour lists in shuffled order: many distinct scales among the weights, hubs with many
+    out-neighbours relaxed before the next extraction (several roots in the Fibonacci heap), later improvements that
+    undercut the current minimum"""
+    pts = [(int(rng.random() ** 4 * 4096), int(rng.random() ** 4 * 4096)) for _ in range(N)]
+    w = [[int(round(math.hypot(p[0] - q[0], p[1] - q[1]) * 16)) for q in pts] for p in pts]
+    nbrs = []
+    for i in range(N):
+        others = [j for j in range(N) if j != i]
+        rng.shuffle(others)
+        others.sort(key=lambda j: w[i][j])
+        row = others[:K]
+        rng.shuffle(row)
+        nbrs.append(row)
+    return {"kind": "sp", "gen": "uneven-knn", "N": N, "nbrs": nbrs, "w": w, "scale": 4, "lm": []}
+
+
+HEAP_CLASSES = ("not stored", "minimum root", "other root, below minimum", "other root, not below minimum",
+                "child cut, below minimum", "child cut, not below minimum", "child keeps its place")
+
+
+def model_events(ctx, exes, cases):
+    """per case the 7 counters of Dijkstra_FibC_Model.dk_class over the concrete-heap run (extracted; cheap)"""
+    blocks = run_model(ctx, exes.model, ["E " + " ".join(graph_tokens(c, False)) for c in cases])
+    out = []
+    for blk in blocks:
+        ev = [0] * 7
+        for line in blk:
+            if line.startswith("events "):
+                try:
+                    ev = [int(x) for x in line.split()[1:8]]
+                except ValueError:
+                    pass
+        out.append(ev)
+    return out
+
+
+def heap_aimed_cases(ctx, exes, rng, n_candidates, per_class):
+    """model-guided generation: many candidate graphs go through the extracted concrete-heap model only; kept are
+    those in which decrease_key meets the rare heap situations (another root lowered below the minimum; a child cut
+    below the minimum; ...), most events first.  Those are the inputs on which a change of the heap's pointer
+    bookkeeping can show."""
+    cands = []
+    for i in range(n_candidates):
+        N = rng.choice([4, 5, 6, 8, 10, 12, 16, 20, 24])
+        K = rng.randint(2, min(8, N - 1))
+        g = rng.random()
+        if g < 0.45:
+            c = gen_uneven(rng, N, K)
+        elif g < 0.7:
+            c = gen_decrease(rng, N)
+        elif g < 0.85:
+            c = gen_digraph(rng, N, K, rng.choice([3, 9, 100]))
+        else:
+            c = gen_knn(rng, N, K, 2, rng.choice([8, 30]), clusters=True)
+        cands.append(add_landmarks(rng, c))
+    evs = model_events(ctx, exes, cands)
+    chosen, seen = [], set()
+    for cls in (2, 4, 5, 3):
+        ranked = sorted(range(len(cands)), key=lambda i: -evs[i][cls])
+        for i in ranked[:per_class]:
+            if evs[i][cls] > 0 and i not in seen:
+                seen.add(i)
+                cands[i]["gen"] = "heap-aimed(" + cands[i]["gen"] + ")"
+                cands[i]["_events"] = evs[i]
+                chosen.append(cands[i])
+    return chosen, len(cands)
+
+
 def gen_generic(rng, N, K):
     """tolerance stream: weights are generic binary64 values in [0.5, 1.5) (53 significant bits), so the sums the
     implementation forms ARE rounded; every double is a dyadic rational, the model still runs exactly on
@@ -502,6 +572,12 @@ MODEL_TAGS = ("full pq0", "full pq1", "full fib0", "full fib1", "full fibc", "la
 def parse_block(blk):
     d = {}
     for line in blk:
+        if line.startswith("events "):
+            try:
+                d["events"] = [int(x) for x in line.split()[1:8]]
+            except ValueError:
+                pass
+            continue
         for tag in MODEL_TAGS:
             if line.startswith(tag + " "):
                 d[tag] = parse_model_mat(line[len(tag) + 1:])
@@ -671,6 +747,8 @@ def evaluate_sp(ctx, exes, cases, stats, shrink=True):
         spec = parse_block(sblocks[ci])
         sp, landsp = spec.get("sp"), spec.get("landsp", [])
         stats["model_rows"] += c["N"]
+        for i, x in enumerate(model.get("events", [])):
+            stats["heap_decrease_key_situations"][HEAP_CLASSES[i]] += x
         # (i) theorem instances on this input: every model variant equals the specification
         for k in ("full pq0", "full pq1", "full fib0", "full fib1", "full fibc"):
             if model.get(k) != sp:
@@ -703,7 +781,8 @@ def evaluate_sp(ctx, exes, cases, stats, shrink=True):
                 broken = clauses_broken(c, full, land, sp)
                 why = ("compute_shortest_distances_matrix (%s overload; configurations %s) is not the shortest-path "
                        "matrix: %s%s" % ("first" if (prob or not ok_full) else "landmark",
-                                         ", ".join("%s/%s threads" % k for k in which), detail,
+                                         ", ".join(("%s/1 thread traced" % k[0]) if k[1] == "trace" else
+                                                   ("%s/%s threads" % k) for k in which), detail,
                                          ("; clauses broken: " + "; ".join(broken)) if broken else ""))
                 cc = c
                 if shrink and len(ctx._violations) < 2:
@@ -1128,7 +1207,8 @@ def new_stats():
     return {"model_rows": 0, "traces": 0, "trace_agree": 0, "trace_disagree": 0, "trace_calls": 0,
             "skipped_runs": 0, "big_rows_checked": 0, "tolerance_matrices": 0, "old_f4_model_differs": 0, "iso": {}, "iso_exceptions": 0,
             "iso_disconnected": 0, "B_exact": 0, "B_tolerance": 0, "emb_checked": 0, "emb_degenerate": 0,
-            "emb_oracle_bad": 0, "emb_worst_rel": 0.0, "oracle_contract_worst": 0.0}
+            "emb_oracle_bad": 0, "emb_worst_rel": 0.0, "oracle_contract_worst": 0.0,
+            "heap_decrease_key_situations": {k: 0 for k in HEAP_CLASSES}, "heap_aimed_candidates": 0}
 
 
 def build_all(ctx, with_iso_fib=True):
@@ -1216,6 +1296,9 @@ def run(ctx):
         for N in (200, 256, 400):
             big_cases.append(add_landmarks(rng, gen_knn(rng, N, rng.choice([6, 8, 10]), 2, 128,
                                                         clusters=rng.random() < 0.5)))
+    aimed, ncand = heap_aimed_cases(ctx, exes, rng, 1500 if quick else 15000, 12 if quick else 120)
+    stats["heap_aimed_candidates"] += ncand
+    cases += aimed
     sp_cases = [c for c in cases if c.get("kind", "sp") == "sp"]
     iso_cases = [c for c in cases if c.get("kind") == "iso"] + iso_cases
     n = 0
@@ -1242,6 +1325,12 @@ def run(ctx):
             for i in range(0, len(extra), 700):
                 if not ctx.has_violation():
                     n += evaluate_sp(ctx, exes, extra[i:i + 700], stats)
+        if not ctx.has_violation():
+            # model-guided: inputs on which the concrete-heap model meets the rare decrease_key situations
+            aimed2, ncand2 = heap_aimed_cases(ctx, exes, rng, 12000 if quick else 40000, 150)
+            stats["heap_aimed_candidates"] += ncand2
+            searched += len(aimed2)
+            n += evaluate_sp(ctx, exes, aimed2, stats)
         for rnd in range(5):
             if ctx.has_violation():
                 break
